@@ -351,6 +351,7 @@ pub struct PbOutcome {
     /// every schedule with at most this many preemptions was executed, even if the run was capped (-1: none)
     pub complete_bound: i64,
     pub bound: usize,
+    pub free_cap: usize,
     pub max_steps: u32,
     pub diverged: u64,
     pub root_children: u64,
@@ -365,7 +366,16 @@ pub fn enumerate_pb<F>(scenario: F, bound: usize, max_runs: u64, shard: u64, nsh
 where
     F: Fn() + Send + Sync + Clone + 'static,
 {
-    let core = Arc::new(Mutex::new(PbCore { bound, free_cap: 3, max_runs, shard, nshards: nshards.max(1), ..Default::default() }));
+    enumerate_pb_free(scenario, bound, 3, max_runs, shard, nshards, stats, max_failures)
+}
+
+/// as `enumerate_pb`, with the cap on free (non-preempting) deviations per schedule given explicitly
+#[allow(clippy::too_many_arguments)]
+pub fn enumerate_pb_free<F>(scenario: F, bound: usize, free_cap: usize, max_runs: u64, shard: u64, nshards: u64, stats: &Arc<Stats>, max_failures: usize) -> PbOutcome
+where
+    F: Fn() + Send + Sync + Clone + 'static,
+{
+    let core = Arc::new(Mutex::new(PbCore { bound, free_cap, max_runs, shard, nshards: nshards.max(1), ..Default::default() }));
     let mut failures = vec![];
     loop {
         let f = scenario.clone();
@@ -399,7 +409,7 @@ where
         Err(p) => p.into_inner(),
     };
     CURRENT_SCHEDULE.lock().unwrap().clear();
-    PbOutcome { runs: c.runs, exhausted: c.exhausted && failures.is_empty(), complete_bound: if failures.is_empty() { c.complete_bound() } else { -1 }, bound, max_steps: c.max_steps, diverged: c.diverged, root_children: c.root_children, level_done_at: c.level_done_at.clone(), failures }
+    PbOutcome { runs: c.runs, exhausted: c.exhausted && failures.is_empty(), complete_bound: if failures.is_empty() { c.complete_bound() } else { -1 }, bound, free_cap, max_steps: c.max_steps, diverged: c.diverged, root_children: c.root_children, level_done_at: c.level_done_at.clone(), failures }
 }
 
 /// accumulated over the scenarios of one monitor run, written into the report's `extra`
@@ -418,10 +428,10 @@ impl PbTotals {
         self.diverged += o.diverged;
         if o.exhausted {
             if self.exhausted.len() < 400 {
-                self.exhausted.push(format!("{}:bound{}:{}:levels-done-at{:?}", name, o.bound, o.runs, o.level_done_at));
+                self.exhausted.push(format!("{}:bound{}(free<={}):{}:levels-done-at{:?}", name, o.bound, o.free_cap, o.runs, o.level_done_at));
             }
         } else if self.capped.len() < 400 {
-            self.capped.push(format!("{}:bound{}-capped-after-{}-runs:complete-through-bound{}:levels-done-at{:?}", name, o.bound, o.runs, o.complete_bound, o.level_done_at));
+            self.capped.push(format!("{}:bound{}(free<={})-capped-after-{}-runs:complete-through-bound{}:levels-done-at{:?}", name, o.bound, o.free_cap, o.runs, o.complete_bound, o.level_done_at));
         }
         *self.complete_hist.entry(format!("scenarios_complete_through_bound_{}", o.complete_bound)).or_insert(0) += 1;
     }
